@@ -81,6 +81,7 @@ KINDS = {
     "dyn": "dyn {n};",
     "anon_s": "struct {{ uint8 {n}a; uint16 {n}b; }};",
     "named_s": "struct {{ uint16 {n}a; uint8 {n}b; }} {n};",
+    "anon_bits": "struct {{ uint16 {n}a:4; uint16 {n}b:5; }};",
     "anon_u": "union {{ uint16 {n}a; uint8 {n}b[2]; }};",
     "named_u": "union {{ uint32 {n}a; uint8 {n}b; }} {n};",
     "b16_full": "uint16 {n}a:3; uint16 {n}b:13;",
@@ -95,6 +96,9 @@ KINDS = {
     "b8_roll": "uint8 {n}a:5; uint8 {n}b:5;",
     "b16_sw8_2": "uint16 {n}a:3; uint8 {n}b:2; uint8 {n}c:3;",
     "b8_two": "uint8 {n}a:8; uint8 {n}b:8;",
+    "b8_whole": "uint8 {n}x:8;",
+    "b32_whole": "uint32 {n}x:32;",
+    "bf32_whole": "F32 {n}x:32;",
 }
 
 EOF_KINDS = {"eof_u8", "eof_u16", "eof_char"}
